@@ -124,15 +124,17 @@ def position_value(p, c, f):
     return -v if c % 2 else v
 
 
-def layout_pass(p, channels, frames, fpb, xyz):
+def layout_pass(p, channels, frames, fpb, xyz, odd=False):
+    """odd: C13's own files also carry a blank and a lower-case channel name and Latin-1 description text in places (the other
+    checks that borrow this generator - C11, C12, C20 - keep plain names: a blank name has no LAS mnemonic to become)."""
     names = NAMES20[:channels] if p % 2 == 0 else (NAMES20[3:] + NAMES20[:3])[:channels]
-    if channels >= 2 and (channels + frames + p) % 4 == 0:
+    if odd and channels >= 2 and (channels + frames + p) % 4 == 0:
         # a channel whose name field is blank is still a channel of the pass (and one spelt in lower case is still that name)
         names = list(names)
         names[(frames + p) % channels] = '    '
         names[(frames + p + 1) % channels] = 'a1b '
     extra = {}
-    if (channels + 2 * frames + p) % 7 == 3:
+    if odd and (channels + 2 * frames + p) % 7 == 3:
         # a description in Latin-1 (a field name with a letter above 0x7f): free text, the reader does not interpret it
         extra['description'] = b'TROLL \xd8ST 31/2-A \xb0C'.ljust(72).hex()
     return dict(extra, **{
@@ -420,7 +422,7 @@ def run_shard(shard, tier):
         c, f = shard['c'], shard['f']
         for fpb in t['fpb']:
             for xyz in itertools.product(t['xvals'], repeat=3):
-                model = {'passes': [layout_pass(0, c, f, fpb, xyz)]}
+                model = {'passes': [layout_pass(0, c, f, fpb, xyz, odd=True)]}
                 bad, outcome = check_model(model)
                 case = {'kind': 'model', 'model': model}
                 _record(res, ('one', c, f, fpb, xyz), case, c > 1 or f > fpb, bad, outcome,
@@ -434,7 +436,7 @@ def run_shard(shard, tier):
             for f2 in t['frames']:
                 for fpb2 in t['fpb']:
                     for xa, xb in X_PAIRS:
-                        model = {'passes': [layout_pass(0, c1, f1, fpb1, xa), layout_pass(1, c2, f2, fpb2, xb)]}
+                        model = {'passes': [layout_pass(0, c1, f1, fpb1, xa, odd=True), layout_pass(1, c2, f2, fpb2, xb, odd=True)]}
                         bad, outcome = check_model(model)
                         case = {'kind': 'model', 'model': model}
                         _record(res, ('two', c1, f1, fpb1, c2, f2, fpb2, xa, xb), case, True, bad, outcome)
@@ -444,7 +446,7 @@ def run_shard(shard, tier):
     elif kind == 'three':
         small = [(1, 1, 1), (2, 3, 2), (20, 5, 3)] if shard.get('n', 3) < 5 else [(1, 1, 1), (2, 3, 2)]
         for combo in itertools.product(small, repeat=shard.get('n', 3)):
-            model = {'passes': [layout_pass(i, c, f, fpb, (100, 97, 0.5) if i % 2 == 0 else (97, 100, 0.25))
+            model = {'passes': [layout_pass(i, c, f, fpb, (100, 97, 0.5) if i % 2 == 0 else (97, 100, 0.25), odd=True)
                                 for i, (c, f, fpb) in enumerate(combo)]}
             bad, outcome = check_model(model)
             _record(res, ('three', combo), {'kind': 'model', 'model': model}, True, bad, outcome)
@@ -455,7 +457,7 @@ def run_shard(shard, tier):
         for f in BIG_FRAMES:
             for fpb in BIG_FPB:
                 for xyz in ((100, 97, 0.25), (0.5, 100, 0.5)):
-                    model = {'passes': [layout_pass(0, c, f, fpb, xyz)]}
+                    model = {'passes': [layout_pass(0, c, f, fpb, xyz, odd=True)]}
                     bad, outcome = check_model(model)
                     _record(res, ('big', c, f, fpb, xyz), {'kind': 'model', 'model': model}, True, bad, outcome)
                     res.count('files')
